@@ -53,6 +53,13 @@ module Coq__1 = struct
 end
 include Coq__1
 
+(** val mul : nat -> nat -> nat **)
+
+let rec mul n0 m =
+  match n0 with
+  | O -> O
+  | S p -> add m (mul p m)
+
 (** val sub : nat -> nat -> nat **)
 
 let rec sub n0 m =
@@ -64,6 +71,15 @@ let rec sub n0 m =
 
 module Nat =
  struct
+  (** val sub : nat -> nat -> nat **)
+
+  let rec sub n0 m =
+    match n0 with
+    | O -> n0
+    | S k -> (match m with
+              | O -> n0
+              | S l -> sub k l)
+
   (** val eqb : nat -> nat -> bool **)
 
   let rec eqb n0 m =
@@ -88,6 +104,37 @@ module Nat =
 
   let ltb n0 m =
     leb (S n0) m
+
+  (** val max : nat -> nat -> nat **)
+
+  let rec max n0 m =
+    match n0 with
+    | O -> m
+    | S n' -> (match m with
+               | O -> n0
+               | S m' -> S (max n' m'))
+
+  (** val divmod : nat -> nat -> nat -> nat -> nat * nat **)
+
+  let rec divmod x y q u =
+    match x with
+    | O -> (q, u)
+    | S x' ->
+      (match u with
+       | O -> divmod x' y (S q) y
+       | S u' -> divmod x' y q u')
+
+  (** val div : nat -> nat -> nat **)
+
+  let div x y = match y with
+  | O -> y
+  | S y' -> fst (divmod x y' O y')
+
+  (** val modulo : nat -> nat -> nat **)
+
+  let modulo x = function
+  | O -> x
+  | S y' -> sub y' (snd (divmod x y' O y'))
  end
 
 type positive =
@@ -909,6 +956,27 @@ let rec be_enc k n0 =
       (be_enc k' (N.div n0 (Npos (XO (XO (XO (XO (XO (XO (XO (XO XH)))))))))))
       ((N.modulo n0 (Npos (XO (XO (XO (XO (XO (XO (XO (XO XH)))))))))) :: [])
 
+(** val xor_pad : bytes -> bytes -> bytes **)
+
+let rec xor_pad a b =
+  match a with
+  | [] -> []
+  | x :: a' ->
+    (match b with
+     | [] -> x :: a'
+     | y :: b' -> (N.coq_lxor x y) :: (xor_pad a' b'))
+
+(** val pad_to : nat -> bytes -> bytes **)
+
+let pad_to n0 l =
+  app l (repeat N0 (sub n0 (length l)))
+
+(** val take_until_nul : bytes -> bytes **)
+
+let rec take_until_nul = function
+| [] -> []
+| x :: r -> if N.eqb x N0 then [] else x :: (take_until_nul r)
+
 (** val zbyte : z -> n **)
 
 let zbyte z0 =
@@ -1013,6 +1081,11 @@ let e_pkt_big =
 
 let e_unknown_code =
   Npos (XI (XI XH))
+
+(** val e_invalid : n **)
+
+let e_invalid =
+  Npos (XO (XO (XO XH)))
 
 (** val remove_at : nat -> 'a1 list -> 'a1 list **)
 
@@ -1132,7 +1205,19 @@ let g_IsAuthenticRequest =
     false)), (String ((Ascii (false, false, true, false, true, true, true,
     false)), (String ((Ascii (true, false, false, true, false, true, false,
     false)), EmptyString)))))))))))))))))))))))); gop = OpLT; glit = (Zpos
-    (XO (XO (XI (XO XH))))) } :: []
+    (XO (XO (XI (XO XH))))) } :: ({ gexpr = (String ((Ascii (false, false,
+    true, true, false, true, true, false)), (String ((Ascii (true, false,
+    true, false, false, true, true, false)), (String ((Ascii (false, true,
+    true, true, false, true, true, false)), (String ((Ascii (false, false,
+    false, true, false, true, false, false)), (String ((Ascii (true, true,
+    false, false, true, true, true, false)), (String ((Ascii (true, false,
+    true, false, false, true, true, false)), (String ((Ascii (true, true,
+    false, false, false, true, true, false)), (String ((Ascii (false, true,
+    false, false, true, true, true, false)), (String ((Ascii (true, false,
+    true, false, false, true, true, false)), (String ((Ascii (false, false,
+    true, false, true, true, true, false)), (String ((Ascii (true, false,
+    false, true, false, true, false, false)),
+    EmptyString)))))))))))))))))))))); gop = OpEQ; glit = Z0 } :: [])
 
 (** val sW_IsAuthenticRequest : z list list list **)
 
@@ -1185,6 +1270,177 @@ let g_IsAuthenticResponse =
     true, true, true, false)), (String ((Ascii (true, false, false, true,
     false, true, false, false)), EmptyString)))))))))))))))))))))); gop =
     OpEQ; glit = Z0 } :: []))
+
+(** val g_NewTunnelPassword : guard list **)
+
+let g_NewTunnelPassword =
+  { gexpr = (String ((Ascii (false, false, true, true, false, true, true,
+    false)), (String ((Ascii (true, false, true, false, false, true, true,
+    false)), (String ((Ascii (false, true, true, true, false, true, true,
+    false)), (String ((Ascii (false, false, false, true, false, true, false,
+    false)), (String ((Ascii (false, false, false, false, true, true, true,
+    false)), (String ((Ascii (true, false, false, false, false, true, true,
+    false)), (String ((Ascii (true, true, false, false, true, true, true,
+    false)), (String ((Ascii (true, true, false, false, true, true, true,
+    false)), (String ((Ascii (true, true, true, false, true, true, true,
+    false)), (String ((Ascii (true, true, true, true, false, true, true,
+    false)), (String ((Ascii (false, true, false, false, true, true, true,
+    false)), (String ((Ascii (false, false, true, false, false, true, true,
+    false)), (String ((Ascii (true, false, false, true, false, true, false,
+    false)), EmptyString)))))))))))))))))))))))))); gop = OpGT; glit = (Zpos
+    (XI (XI (XI (XI (XO (XI (XI XH)))))))) } :: ({ gexpr = (String ((Ascii
+    (false, false, true, true, false, true, true, false)), (String ((Ascii
+    (true, false, true, false, false, true, true, false)), (String ((Ascii
+    (false, true, true, true, false, true, true, false)), (String ((Ascii
+    (false, false, false, true, false, true, false, false)), (String ((Ascii
+    (true, true, false, false, true, true, true, false)), (String ((Ascii
+    (true, false, false, false, false, true, true, false)), (String ((Ascii
+    (false, false, true, true, false, true, true, false)), (String ((Ascii
+    (false, false, true, false, true, true, true, false)), (String ((Ascii
+    (true, false, false, true, false, true, false, false)),
+    EmptyString)))))))))))))))))); gop = OpNE; glit = (Zpos (XO
+    XH)) } :: ({ gexpr = (String ((Ascii (true, true, false, false, true,
+    true, true, false)), (String ((Ascii (true, false, false, false, false,
+    true, true, false)), (String ((Ascii (false, false, true, true, false,
+    true, true, false)), (String ((Ascii (false, false, true, false, true,
+    true, true, false)), (String ((Ascii (true, true, false, true, true,
+    false, true, false)), (String ((Ascii (false, false, false, false, true,
+    true, false, false)), (String ((Ascii (true, false, true, true, true,
+    false, true, false)), (String ((Ascii (false, false, false, false, false,
+    true, false, false)), (String ((Ascii (false, true, true, false, false,
+    true, false, false)), (String ((Ascii (false, false, false, false, false,
+    true, false, false)), (String ((Ascii (false, false, false, false, true,
+    true, false, false)), (String ((Ascii (false, false, false, true, true,
+    true, true, false)), (String ((Ascii (false, false, false, true, true,
+    true, false, false)), (String ((Ascii (false, false, false, false, true,
+    true, false, false)), EmptyString)))))))))))))))))))))))))))); gop =
+    OpNE; glit = (Zpos (XO (XO (XO (XO (XO (XO (XO XH)))))))) } :: ({ gexpr =
+    (String ((Ascii (false, false, true, true, false, true, true, false)),
+    (String ((Ascii (true, false, true, false, false, true, true, false)),
+    (String ((Ascii (false, true, true, true, false, true, true, false)),
+    (String ((Ascii (false, false, false, true, false, true, false, false)),
+    (String ((Ascii (true, true, false, false, true, true, true, false)),
+    (String ((Ascii (true, false, true, false, false, true, true, false)),
+    (String ((Ascii (true, true, false, false, false, true, true, false)),
+    (String ((Ascii (false, true, false, false, true, true, true, false)),
+    (String ((Ascii (true, false, true, false, false, true, true, false)),
+    (String ((Ascii (false, false, true, false, true, true, true, false)),
+    (String ((Ascii (true, false, false, true, false, true, false, false)),
+    EmptyString)))))))))))))))))))))); gop = OpEQ; glit = Z0 } :: ({ gexpr =
+    (String ((Ascii (false, false, true, true, false, true, true, false)),
+    (String ((Ascii (true, false, true, false, false, true, true, false)),
+    (String ((Ascii (false, true, true, true, false, true, true, false)),
+    (String ((Ascii (false, false, false, true, false, true, false, false)),
+    (String ((Ascii (false, true, false, false, true, true, true, false)),
+    (String ((Ascii (true, false, true, false, false, true, true, false)),
+    (String ((Ascii (true, false, false, false, true, true, true, false)),
+    (String ((Ascii (true, false, true, false, true, true, true, false)),
+    (String ((Ascii (true, false, true, false, false, true, true, false)),
+    (String ((Ascii (true, true, false, false, true, true, true, false)),
+    (String ((Ascii (false, false, true, false, true, true, true, false)),
+    (String ((Ascii (true, false, false, false, false, false, true, false)),
+    (String ((Ascii (true, false, true, false, true, true, true, false)),
+    (String ((Ascii (false, false, true, false, true, true, true, false)),
+    (String ((Ascii (false, false, false, true, false, true, true, false)),
+    (String ((Ascii (true, false, true, false, false, true, true, false)),
+    (String ((Ascii (false, true, true, true, false, true, true, false)),
+    (String ((Ascii (false, false, true, false, true, true, true, false)),
+    (String ((Ascii (true, false, false, true, false, true, true, false)),
+    (String ((Ascii (true, true, false, false, false, true, true, false)),
+    (String ((Ascii (true, false, false, false, false, true, true, false)),
+    (String ((Ascii (false, false, true, false, true, true, true, false)),
+    (String ((Ascii (true, true, true, true, false, true, true, false)),
+    (String ((Ascii (false, true, false, false, true, true, true, false)),
+    (String ((Ascii (true, false, false, true, false, true, false, false)),
+    EmptyString)))))))))))))))))))))))))))))))))))))))))))))))))); gop =
+    OpNE; glit = (Zpos (XO (XO (XO (XO XH))))) } :: ({ gexpr = (String
+    ((Ascii (true, true, false, false, false, true, true, false)), (String
+    ((Ascii (false, false, false, true, false, true, true, false)), (String
+    ((Ascii (true, false, true, false, true, true, true, false)), (String
+    ((Ascii (false, true, true, true, false, true, true, false)), (String
+    ((Ascii (true, true, false, true, false, true, true, false)), (String
+    ((Ascii (true, true, false, false, true, true, true, false)),
+    EmptyString)))))))))))); gop = OpEQ; glit = Z0 } :: ({ gexpr = (String
+    ((Ascii (true, true, false, false, false, true, true, false)), (String
+    ((Ascii (false, false, false, true, false, true, true, false)), (String
+    ((Ascii (true, false, true, false, true, true, true, false)), (String
+    ((Ascii (false, true, true, true, false, true, true, false)), (String
+    ((Ascii (true, true, false, true, false, true, true, false)),
+    EmptyString)))))))))); gop = OpEQ; glit = Z0 } :: ({ gexpr = (String
+    ((Ascii (true, false, false, true, false, true, true, false)),
+    EmptyString)); gop = OpLT; glit = (Zpos (XO (XO (XO (XO
+    XH))))) } :: [])))))))
+
+(** val g_NewUserPassword : guard list **)
+
+let g_NewUserPassword =
+  { gexpr = (String ((Ascii (false, false, true, true, false, true, true,
+    false)), (String ((Ascii (true, false, true, false, false, true, true,
+    false)), (String ((Ascii (false, true, true, true, false, true, true,
+    false)), (String ((Ascii (false, false, false, true, false, true, false,
+    false)), (String ((Ascii (false, false, false, false, true, true, true,
+    false)), (String ((Ascii (false, false, true, true, false, true, true,
+    false)), (String ((Ascii (true, false, false, false, false, true, true,
+    false)), (String ((Ascii (true, false, false, true, false, true, true,
+    false)), (String ((Ascii (false, true, true, true, false, true, true,
+    false)), (String ((Ascii (false, false, true, false, true, true, true,
+    false)), (String ((Ascii (true, false, true, false, false, true, true,
+    false)), (String ((Ascii (false, false, false, true, true, true, true,
+    false)), (String ((Ascii (false, false, true, false, true, true, true,
+    false)), (String ((Ascii (true, false, false, true, false, true, false,
+    false)), EmptyString)))))))))))))))))))))))))))); gop = OpGT; glit =
+    (Zpos (XO (XO (XO (XO (XO (XO (XO XH)))))))) } :: ({ gexpr = (String
+    ((Ascii (false, false, true, true, false, true, true, false)), (String
+    ((Ascii (true, false, true, false, false, true, true, false)), (String
+    ((Ascii (false, true, true, true, false, true, true, false)), (String
+    ((Ascii (false, false, false, true, false, true, false, false)), (String
+    ((Ascii (true, true, false, false, true, true, true, false)), (String
+    ((Ascii (true, false, true, false, false, true, true, false)), (String
+    ((Ascii (true, true, false, false, false, true, true, false)), (String
+    ((Ascii (false, true, false, false, true, true, true, false)), (String
+    ((Ascii (true, false, true, false, false, true, true, false)), (String
+    ((Ascii (false, false, true, false, true, true, true, false)), (String
+    ((Ascii (true, false, false, true, false, true, false, false)),
+    EmptyString)))))))))))))))))))))); gop = OpEQ; glit = Z0 } :: ({ gexpr =
+    (String ((Ascii (false, false, true, true, false, true, true, false)),
+    (String ((Ascii (true, false, true, false, false, true, true, false)),
+    (String ((Ascii (false, true, true, true, false, true, true, false)),
+    (String ((Ascii (false, false, false, true, false, true, false, false)),
+    (String ((Ascii (false, true, false, false, true, true, true, false)),
+    (String ((Ascii (true, false, true, false, false, true, true, false)),
+    (String ((Ascii (true, false, false, false, true, true, true, false)),
+    (String ((Ascii (true, false, true, false, true, true, true, false)),
+    (String ((Ascii (true, false, true, false, false, true, true, false)),
+    (String ((Ascii (true, true, false, false, true, true, true, false)),
+    (String ((Ascii (false, false, true, false, true, true, true, false)),
+    (String ((Ascii (true, false, false, false, false, false, true, false)),
+    (String ((Ascii (true, false, true, false, true, true, true, false)),
+    (String ((Ascii (false, false, true, false, true, true, true, false)),
+    (String ((Ascii (false, false, false, true, false, true, true, false)),
+    (String ((Ascii (true, false, true, false, false, true, true, false)),
+    (String ((Ascii (false, true, true, true, false, true, true, false)),
+    (String ((Ascii (false, false, true, false, true, true, true, false)),
+    (String ((Ascii (true, false, false, true, false, true, true, false)),
+    (String ((Ascii (true, true, false, false, false, true, true, false)),
+    (String ((Ascii (true, false, false, false, false, true, true, false)),
+    (String ((Ascii (false, false, true, false, true, true, true, false)),
+    (String ((Ascii (true, true, true, true, false, true, true, false)),
+    (String ((Ascii (false, true, false, false, true, true, true, false)),
+    (String ((Ascii (true, false, false, true, false, true, false, false)),
+    EmptyString)))))))))))))))))))))))))))))))))))))))))))))))))); gop =
+    OpNE; glit = (Zpos (XO (XO (XO (XO XH))))) } :: ({ gexpr = (String
+    ((Ascii (true, true, false, false, false, true, true, false)), (String
+    ((Ascii (false, false, false, true, false, true, true, false)), (String
+    ((Ascii (true, false, true, false, true, true, true, false)), (String
+    ((Ascii (false, true, true, true, false, true, true, false)), (String
+    ((Ascii (true, true, false, true, false, true, true, false)), (String
+    ((Ascii (true, true, false, false, true, true, true, false)),
+    EmptyString)))))))))))); gop = OpEQ; glit = Z0 } :: ({ gexpr = (String
+    ((Ascii (true, false, false, true, false, true, true, false)),
+    EmptyString)); gop = OpLT; glit = (Zpos (XO (XO (XO (XO
+    XH))))) } :: ({ gexpr = (String ((Ascii (false, true, false, true, false,
+    true, true, false)), EmptyString)); gop = OpLT; glit = (Zpos (XO (XO (XO
+    (XO XH))))) } :: [])))))
 
 (** val sW_Packet_Encode : z list list list **)
 
@@ -1275,6 +1531,176 @@ let g_ParseAttributes =
     ((Ascii (false, false, true, false, true, true, true, false)), (String
     ((Ascii (false, false, false, true, false, true, true, false)),
     EmptyString)))))))))))); gop = OpGT; glit = (Zpos (XO XH)) } :: []))))
+
+(** val g_TunnelPassword : guard list **)
+
+let g_TunnelPassword =
+  { gexpr = (String ((Ascii (false, false, true, true, false, true, true,
+    false)), (String ((Ascii (true, false, true, false, false, true, true,
+    false)), (String ((Ascii (false, true, true, true, false, true, true,
+    false)), (String ((Ascii (false, false, false, true, false, true, false,
+    false)), (String ((Ascii (true, false, false, false, false, true, true,
+    false)), (String ((Ascii (true, false, false, true, false, true, false,
+    false)), EmptyString)))))))))))); gop = OpGT; glit = (Zpos (XO (XO (XI
+    (XI (XI (XI (XI XH)))))))) } :: ({ gexpr = (String ((Ascii (false, false,
+    true, true, false, true, true, false)), (String ((Ascii (true, false,
+    true, false, false, true, true, false)), (String ((Ascii (false, true,
+    true, true, false, true, true, false)), (String ((Ascii (false, false,
+    false, true, false, true, false, false)), (String ((Ascii (true, false,
+    false, false, false, true, true, false)), (String ((Ascii (true, false,
+    false, true, false, true, false, false)), EmptyString)))))))))))); gop =
+    OpLT; glit = (Zpos (XO (XI (XO (XO XH))))) } :: ({ gexpr = (String
+    ((Ascii (false, false, false, true, false, true, false, false)), (String
+    ((Ascii (false, false, true, true, false, true, true, false)), (String
+    ((Ascii (true, false, true, false, false, true, true, false)), (String
+    ((Ascii (false, true, true, true, false, true, true, false)), (String
+    ((Ascii (false, false, false, true, false, true, false, false)), (String
+    ((Ascii (true, false, false, false, false, true, true, false)), (String
+    ((Ascii (true, false, false, true, false, true, false, false)), (String
+    ((Ascii (false, false, false, false, false, true, false, false)), (String
+    ((Ascii (true, false, true, true, false, true, false, false)), (String
+    ((Ascii (false, false, false, false, false, true, false, false)), (String
+    ((Ascii (false, true, false, false, true, true, false, false)), (String
+    ((Ascii (true, false, false, true, false, true, false, false)), (String
+    ((Ascii (false, false, false, false, false, true, false, false)), (String
+    ((Ascii (true, false, true, false, false, true, false, false)), (String
+    ((Ascii (false, false, false, false, false, true, false, false)), (String
+    ((Ascii (true, false, false, false, true, true, false, false)), (String
+    ((Ascii (false, true, true, false, true, true, false, false)),
+    EmptyString)))))))))))))))))))))))))))))))))); gop = OpNE; glit =
+    Z0 } :: ({ gexpr = (String ((Ascii (false, false, true, true, false,
+    true, true, false)), (String ((Ascii (true, false, true, false, false,
+    true, true, false)), (String ((Ascii (false, true, true, true, false,
+    true, true, false)), (String ((Ascii (false, false, false, true, false,
+    true, false, false)), (String ((Ascii (true, true, false, false, true,
+    true, true, false)), (String ((Ascii (true, false, true, false, false,
+    true, true, false)), (String ((Ascii (true, true, false, false, false,
+    true, true, false)), (String ((Ascii (false, true, false, false, true,
+    true, true, false)), (String ((Ascii (true, false, true, false, false,
+    true, true, false)), (String ((Ascii (false, false, true, false, true,
+    true, true, false)), (String ((Ascii (true, false, false, true, false,
+    true, false, false)), EmptyString)))))))))))))))))))))); gop = OpEQ;
+    glit = Z0 } :: ({ gexpr = (String ((Ascii (false, false, true, true,
+    false, true, true, false)), (String ((Ascii (true, false, true, false,
+    false, true, true, false)), (String ((Ascii (false, true, true, true,
+    false, true, true, false)), (String ((Ascii (false, false, false, true,
+    false, true, false, false)), (String ((Ascii (false, true, false, false,
+    true, true, true, false)), (String ((Ascii (true, false, true, false,
+    false, true, true, false)), (String ((Ascii (true, false, false, false,
+    true, true, true, false)), (String ((Ascii (true, false, true, false,
+    true, true, true, false)), (String ((Ascii (true, false, true, false,
+    false, true, true, false)), (String ((Ascii (true, true, false, false,
+    true, true, true, false)), (String ((Ascii (false, false, true, false,
+    true, true, true, false)), (String ((Ascii (true, false, false, false,
+    false, false, true, false)), (String ((Ascii (true, false, true, false,
+    true, true, true, false)), (String ((Ascii (false, false, true, false,
+    true, true, true, false)), (String ((Ascii (false, false, false, true,
+    false, true, true, false)), (String ((Ascii (true, false, true, false,
+    false, true, true, false)), (String ((Ascii (false, true, true, true,
+    false, true, true, false)), (String ((Ascii (false, false, true, false,
+    true, true, true, false)), (String ((Ascii (true, false, false, true,
+    false, true, true, false)), (String ((Ascii (true, true, false, false,
+    false, true, true, false)), (String ((Ascii (true, false, false, false,
+    false, true, true, false)), (String ((Ascii (false, false, true, false,
+    true, true, true, false)), (String ((Ascii (true, true, true, true,
+    false, true, true, false)), (String ((Ascii (false, true, false, false,
+    true, true, true, false)), (String ((Ascii (true, false, false, true,
+    false, true, false, false)),
+    EmptyString)))))))))))))))))))))))))))))))))))))))))))))))))); gop =
+    OpNE; glit = (Zpos (XO (XO (XO (XO XH))))) } :: ({ gexpr = (String
+    ((Ascii (true, false, false, false, false, true, true, false)), (String
+    ((Ascii (true, true, false, true, true, false, true, false)), (String
+    ((Ascii (false, false, false, false, true, true, false, false)), (String
+    ((Ascii (true, false, true, true, true, false, true, false)), (String
+    ((Ascii (false, false, false, false, false, true, false, false)), (String
+    ((Ascii (false, true, true, false, false, true, false, false)), (String
+    ((Ascii (false, false, false, false, false, true, false, false)), (String
+    ((Ascii (false, false, false, false, true, true, false, false)), (String
+    ((Ascii (false, false, false, true, true, true, true, false)), (String
+    ((Ascii (false, false, false, true, true, true, false, false)), (String
+    ((Ascii (false, false, false, false, true, true, false, false)),
+    EmptyString)))))))))))))))))))))); gop = OpNE; glit = (Zpos (XO (XO (XO
+    (XO (XO (XO (XO XH)))))))) } :: ({ gexpr = (String ((Ascii (true, true,
+    false, false, false, true, true, false)), (String ((Ascii (false, false,
+    false, true, false, true, true, false)), (String ((Ascii (true, false,
+    true, false, true, true, true, false)), (String ((Ascii (false, true,
+    true, true, false, true, true, false)), (String ((Ascii (true, true,
+    false, true, false, true, true, false)), EmptyString)))))))))); gop =
+    OpEQ; glit = Z0 } :: ({ gexpr = (String ((Ascii (true, false, false,
+    true, false, true, true, false)), EmptyString)); gop = OpLT; glit = (Zpos
+    (XO (XO (XO (XO XH))))) } :: [])))))))
+
+(** val g_UserPassword : guard list **)
+
+let g_UserPassword =
+  { gexpr = (String ((Ascii (false, false, true, true, false, true, true,
+    false)), (String ((Ascii (true, false, true, false, false, true, true,
+    false)), (String ((Ascii (false, true, true, true, false, true, true,
+    false)), (String ((Ascii (false, false, false, true, false, true, false,
+    false)), (String ((Ascii (true, false, false, false, false, true, true,
+    false)), (String ((Ascii (true, false, false, true, false, true, false,
+    false)), EmptyString)))))))))))); gop = OpLT; glit = (Zpos (XO (XO (XO
+    (XO XH))))) } :: ({ gexpr = (String ((Ascii (false, false, true, true,
+    false, true, true, false)), (String ((Ascii (true, false, true, false,
+    false, true, true, false)), (String ((Ascii (false, true, true, true,
+    false, true, true, false)), (String ((Ascii (false, false, false, true,
+    false, true, false, false)), (String ((Ascii (true, false, false, false,
+    false, true, true, false)), (String ((Ascii (true, false, false, true,
+    false, true, false, false)), EmptyString)))))))))))); gop = OpGT; glit =
+    (Zpos (XO (XO (XO (XO (XO (XO (XO XH)))))))) } :: ({ gexpr = (String
+    ((Ascii (false, false, true, true, false, true, true, false)), (String
+    ((Ascii (true, false, true, false, false, true, true, false)), (String
+    ((Ascii (false, true, true, true, false, true, true, false)), (String
+    ((Ascii (false, false, false, true, false, true, false, false)), (String
+    ((Ascii (true, false, false, false, false, true, true, false)), (String
+    ((Ascii (true, false, false, true, false, true, false, false)), (String
+    ((Ascii (false, false, false, false, false, true, false, false)), (String
+    ((Ascii (true, false, true, false, false, true, false, false)), (String
+    ((Ascii (false, false, false, false, false, true, false, false)), (String
+    ((Ascii (true, false, false, false, true, true, false, false)), (String
+    ((Ascii (false, true, true, false, true, true, false, false)),
+    EmptyString)))))))))))))))))))))); gop = OpNE; glit = Z0 } :: ({ gexpr =
+    (String ((Ascii (false, false, true, true, false, true, true, false)),
+    (String ((Ascii (true, false, true, false, false, true, true, false)),
+    (String ((Ascii (false, true, true, true, false, true, true, false)),
+    (String ((Ascii (false, false, false, true, false, true, false, false)),
+    (String ((Ascii (true, true, false, false, true, true, true, false)),
+    (String ((Ascii (true, false, true, false, false, true, true, false)),
+    (String ((Ascii (true, true, false, false, false, true, true, false)),
+    (String ((Ascii (false, true, false, false, true, true, true, false)),
+    (String ((Ascii (true, false, true, false, false, true, true, false)),
+    (String ((Ascii (false, false, true, false, true, true, true, false)),
+    (String ((Ascii (true, false, false, true, false, true, false, false)),
+    EmptyString)))))))))))))))))))))); gop = OpEQ; glit = Z0 } :: ({ gexpr =
+    (String ((Ascii (false, false, true, true, false, true, true, false)),
+    (String ((Ascii (true, false, true, false, false, true, true, false)),
+    (String ((Ascii (false, true, true, true, false, true, true, false)),
+    (String ((Ascii (false, false, false, true, false, true, false, false)),
+    (String ((Ascii (false, true, false, false, true, true, true, false)),
+    (String ((Ascii (true, false, true, false, false, true, true, false)),
+    (String ((Ascii (true, false, false, false, true, true, true, false)),
+    (String ((Ascii (true, false, true, false, true, true, true, false)),
+    (String ((Ascii (true, false, true, false, false, true, true, false)),
+    (String ((Ascii (true, true, false, false, true, true, true, false)),
+    (String ((Ascii (false, false, true, false, true, true, true, false)),
+    (String ((Ascii (true, false, false, false, false, false, true, false)),
+    (String ((Ascii (true, false, true, false, true, true, true, false)),
+    (String ((Ascii (false, false, true, false, true, true, true, false)),
+    (String ((Ascii (false, false, false, true, false, true, true, false)),
+    (String ((Ascii (true, false, true, false, false, true, true, false)),
+    (String ((Ascii (false, true, true, true, false, true, true, false)),
+    (String ((Ascii (false, false, true, false, true, true, true, false)),
+    (String ((Ascii (true, false, false, true, false, true, true, false)),
+    (String ((Ascii (true, true, false, false, false, true, true, false)),
+    (String ((Ascii (true, false, false, false, false, true, true, false)),
+    (String ((Ascii (false, false, true, false, true, true, true, false)),
+    (String ((Ascii (true, true, true, true, false, true, true, false)),
+    (String ((Ascii (false, true, false, false, true, true, true, false)),
+    (String ((Ascii (true, false, false, true, false, true, false, false)),
+    EmptyString)))))))))))))))))))))))))))))))))))))))))))))))))); gop =
+    OpNE; glit = (Zpos (XO (XO (XO (XO XH))))) } :: ({ gexpr = (String
+    ((Ascii (true, false, false, true, false, true, true, false)),
+    EmptyString)); gop = OpGT; glit = (Zneg XH) } :: [])))))
 
 type avp = { atype : z; aval : bytes }
 
@@ -1595,6 +2021,275 @@ let new_packet c sec = function
        O))))))))))))))))
   then Ok { code = c; ident = i; auth = rest; secret = sec; pattrs = [] }
   else Panic
+
+(** val slice : bytes -> nat -> nat -> bytes res **)
+
+let slice a lo hi =
+  if (||) (Nat.ltb hi lo) (Nat.ltb (length a) hi)
+  then Panic
+  else Ok (firstn (sub hi lo) (skipn lo a))
+
+(** val xor_at : bytes -> nat -> bytes -> bytes **)
+
+let xor_at enc i p =
+  app (firstn i enc) (xor_pad (skipn i enc) (skipn i p))
+
+(** val nup_loop :
+    (bytes -> bytes) -> nat -> bytes -> bytes -> bytes -> nat -> bytes res **)
+
+let rec nup_loop h fuel sec pt enc i =
+  match fuel with
+  | O -> OutOfFuel
+  | S f ->
+    if Nat.ltb i (length pt)
+    then (match slice enc
+                  (sub i (S (S (S (S (S (S (S (S (S (S (S (S (S (S (S (S
+                    O))))))))))))))))) i with
+          | Ok prev ->
+            let enc' = app enc (h (app sec prev)) in
+            nup_loop h f sec pt (xor_at enc' i pt)
+              (add i (S (S (S (S (S (S (S (S (S (S (S (S (S (S (S (S
+                O)))))))))))))))))
+          | _ -> Panic)
+    else Ok enc
+
+(** val new_user_password :
+    (bytes -> bytes) -> bytes -> bytes -> bytes -> bytes res **)
+
+let new_user_password h pt sec ra =
+  if holds (gd g_NewUserPassword O) (zlen pt)
+  then Err e_invalid
+  else if holds (gd g_NewUserPassword (S O)) (zlen sec)
+       then Err e_invalid
+       else if holds (gd g_NewUserPassword (S (S O))) (zlen ra)
+            then Err e_invalid
+            else let enc = h (app sec ra) in
+                 nup_loop h (S (length pt)) sec pt (xor_at enc O pt) (S (S (S
+                   (S (S (S (S (S (S (S (S (S (S (S (S (S O))))))))))))))))
+
+(** val up_loop :
+    (bytes -> bytes) -> nat -> bytes -> bytes -> bytes -> nat -> bytes res **)
+
+let rec up_loop h fuel sec a dec i =
+  match fuel with
+  | O -> OutOfFuel
+  | S f ->
+    if Nat.ltb i (length a)
+    then (match slice a
+                  (sub i (S (S (S (S (S (S (S (S (S (S (S (S (S (S (S (S
+                    O))))))))))))))))) i with
+          | Ok prev ->
+            (match slice a i
+                     (add i (S (S (S (S (S (S (S (S (S (S (S (S (S (S (S (S
+                       O))))))))))))))))) with
+             | Ok cur ->
+               let dec' = app dec (h (app sec prev)) in
+               up_loop h f sec a
+                 (app (firstn i dec') (xor_pad (skipn i dec') cur))
+                 (add i (S (S (S (S (S (S (S (S (S (S (S (S (S (S (S (S
+                   O)))))))))))))))))
+             | _ -> Panic)
+          | _ -> Panic)
+    else Ok dec
+
+(** val user_password :
+    (bytes -> bytes) -> bytes -> bytes -> bytes -> bytes res **)
+
+let user_password h a sec ra =
+  if (||)
+       ((||) (holds (gd g_UserPassword O) (zlen a))
+         (holds (gd g_UserPassword (S O)) (zlen a)))
+       (holds (gd g_UserPassword (S (S O)))
+         (Z.modulo (zlen a) (Zpos (XO (XO (XO (XO XH)))))))
+  then Err e_invalid
+  else if holds (gd g_UserPassword (S (S (S O)))) (zlen sec)
+       then Err e_invalid
+       else if holds (gd g_UserPassword (S (S (S (S O))))) (zlen ra)
+            then Err e_invalid
+            else (match slice a O (S (S (S (S (S (S (S (S (S (S (S (S (S (S
+                          (S (S O)))))))))))))))) with
+                  | Ok first ->
+                    let dec = xor_pad (h (app sec ra)) first in
+                    (match up_loop h (S (length a)) sec a dec (S (S (S (S (S
+                             (S (S (S (S (S (S (S (S (S (S (S
+                             O)))))))))))))))) with
+                     | Ok d -> Ok (take_until_nul d)
+                     | x -> x)
+                  | _ -> Panic)
+
+(** val xor_block : bytes -> nat -> bytes -> bytes res **)
+
+let xor_block attr off b =
+  if Nat.ltb (length attr)
+       (add off (S (S (S (S (S (S (S (S (S (S (S (S (S (S (S (S
+         O)))))))))))))))))
+  then Panic
+  else Ok
+         (app (firstn off attr)
+           (app
+             (xor_pad
+               (firstn (S (S (S (S (S (S (S (S (S (S (S (S (S (S (S (S
+                 O)))))))))))))))) (skipn off attr)) b)
+             (skipn
+               (add off (S (S (S (S (S (S (S (S (S (S (S (S (S (S (S (S
+                 O))))))))))))))))) attr)))
+
+(** val ntp_loop :
+    (bytes -> bytes) -> nat -> nat -> bytes -> bytes -> bytes -> bytes ->
+    bytes res **)
+
+let rec ntp_loop h n0 chunk sec ra salt attr =
+  match n0 with
+  | O -> Ok attr
+  | S n' ->
+    let h0 =
+      if Nat.eqb chunk O
+      then Ok (h (app sec (app ra salt)))
+      else (match slice attr
+                    (add (S (S O))
+                      (mul (sub chunk (S O)) (S (S (S (S (S (S (S (S (S (S (S
+                        (S (S (S (S (S O))))))))))))))))))
+                    (add (S (S O))
+                      (mul chunk (S (S (S (S (S (S (S (S (S (S (S (S (S (S (S
+                        (S O)))))))))))))))))) with
+            | Ok prev -> Ok (h (app sec prev))
+            | _ -> Panic)
+    in
+    (match h0 with
+     | Ok b ->
+       (match xor_block attr
+                (add (S (S O))
+                  (mul chunk (S (S (S (S (S (S (S (S (S (S (S (S (S (S (S (S
+                    O)))))))))))))))))) b with
+        | Ok attr' -> ntp_loop h n' (S chunk) sec ra salt attr'
+        | _ -> Panic)
+     | _ -> Panic)
+
+(** val salt_msb_set : n -> bool **)
+
+let salt_msb_set b =
+  N.leb (Npos (XO (XO (XO (XO (XO (XO (XO XH))))))))
+    (N.modulo b (Npos (XO (XO (XO (XO (XO (XO (XO (XO XH))))))))))
+
+(** val new_tunnel_password :
+    (bytes -> bytes) -> bytes -> bytes -> bytes -> bytes -> bytes res **)
+
+let new_tunnel_password h pw salt sec ra =
+  if holds (gd g_NewTunnelPassword O) (zlen pw)
+  then Err e_invalid
+  else if holds (gd g_NewTunnelPassword (S O)) (zlen salt)
+       then Err e_invalid
+       else (match salt with
+             | [] -> Panic
+             | s0 :: _ ->
+               if negb (salt_msb_set s0)
+               then Err e_invalid
+               else if holds (gd g_NewTunnelPassword (S (S (S O)))) (zlen sec)
+                    then Err e_invalid
+                    else if holds (gd g_NewTunnelPassword (S (S (S (S O)))))
+                              (zlen ra)
+                         then Err e_invalid
+                         else let chunks =
+                                Nat.div
+                                  (sub
+                                    (add (add (S O) (length pw)) (S (S (S (S
+                                      (S (S (S (S (S (S (S (S (S (S (S (S
+                                      O))))))))))))))))) (S O)) (S (S (S (S
+                                  (S (S (S (S (S (S (S (S (S (S (S (S
+                                  O))))))))))))))))
+                              in
+                              let chunks0 =
+                                if Nat.eqb chunks O then S O else chunks
+                              in
+                              let attr =
+                                app (firstn (S (S O)) salt)
+                                  (pad_to
+                                    (mul chunks0 (S (S (S (S (S (S (S (S (S
+                                      (S (S (S (S (S (S (S O)))))))))))))))))
+                                    ((zbyte (zlen pw)) :: pw))
+                              in
+                              ntp_loop h chunks0 O sec ra salt attr)
+
+(** val tp_loop :
+    (bytes -> bytes) -> nat -> nat -> bytes -> bytes -> bytes -> bytes ->
+    bytes -> bytes res **)
+
+let rec tp_loop h n0 chunk sec ra salt a plain =
+  match n0 with
+  | O -> Ok plain
+  | S n' ->
+    let h0 =
+      if Nat.eqb chunk O
+      then Ok (h (app sec (app ra salt)))
+      else (match slice a
+                    (mul (sub chunk (S O)) (S (S (S (S (S (S (S (S (S (S (S
+                      (S (S (S (S (S O)))))))))))))))))
+                    (mul chunk (S (S (S (S (S (S (S (S (S (S (S (S (S (S (S
+                      (S O))))))))))))))))) with
+            | Ok prev -> Ok (h (app sec prev))
+            | _ -> Panic)
+    in
+    (match h0 with
+     | Ok b ->
+       (match slice a
+                (mul chunk (S (S (S (S (S (S (S (S (S (S (S (S (S (S (S (S
+                  O)))))))))))))))))
+                (add
+                  (mul chunk (S (S (S (S (S (S (S (S (S (S (S (S (S (S (S (S
+                    O))))))))))))))))) (S (S (S (S (S (S (S (S (S (S (S (S (S
+                  (S (S (S O))))))))))))))))) with
+        | Ok cur ->
+          tp_loop h n' (S chunk) sec ra salt a (app plain (xor_pad cur b))
+        | _ -> Panic)
+     | _ -> Panic)
+
+(** val tunnel_password :
+    (bytes -> bytes) -> bytes -> bytes -> bytes -> (bytes * bytes) res **)
+
+let tunnel_password h a sec ra =
+  if (||)
+       ((||) (holds (gd g_TunnelPassword O) (zlen a))
+         (holds (gd g_TunnelPassword (S O)) (zlen a)))
+       (holds (gd g_TunnelPassword (S (S O)))
+         (Z.modulo (Z.sub (zlen a) (Zpos (XO XH))) (Zpos (XO (XO (XO (XO
+           XH)))))))
+  then Err e_invalid
+  else if holds (gd g_TunnelPassword (S (S (S O)))) (zlen sec)
+       then Err e_invalid
+       else if holds (gd g_TunnelPassword (S (S (S (S O))))) (zlen ra)
+            then Err e_invalid
+            else (match a with
+                  | [] -> Panic
+                  | a0 :: _ ->
+                    if negb (salt_msb_set a0)
+                    then Err e_invalid
+                    else (match slice a O (S (S O)) with
+                          | Ok salt ->
+                            let a' = skipn (S (S O)) a in
+                            let chunks =
+                              Nat.div (length a') (S (S (S (S (S (S (S (S (S
+                                (S (S (S (S (S (S (S O))))))))))))))))
+                            in
+                            (match tp_loop h chunks O sec ra salt a' [] with
+                             | Ok plain ->
+                               (match plain with
+                                | [] -> Panic
+                                | pl :: _ ->
+                                  if Z.gtb (Z.of_N pl)
+                                       (Z.sub (zlen plain) (Zpos XH))
+                                  then Err e_invalid
+                                  else (match slice plain (S O)
+                                                (N.to_nat
+                                                  (N.modulo
+                                                    (N.add (Npos XH) pl)
+                                                    (Npos (XO (XO (XO (XO (XO
+                                                    (XO (XO (XO XH))))))))))) with
+                                        | Ok pw -> Ok (pw, salt)
+                                        | _ -> Panic))
+                             | Err e -> Err e
+                             | Panic -> Panic
+                             | OutOfFuel -> OutOfFuel)
+                          | _ -> Panic))
 
 (** val is_key : z -> avp -> bool **)
 
@@ -2259,6 +2954,224 @@ let spec_is_authentic_request h q sec =
        (||) (zmem (Z.of_N c) rfc_verbatim_codes)
          ((&&) (zmem (Z.of_N c) rfc_hashed_request_codes)
            (beq (auth_field q) (h (covered q zero16 sec)))))
+
+(** val rfc_up_enc :
+    (bytes -> bytes) -> nat -> bytes -> bytes -> bytes -> bytes **)
+
+let rec rfc_up_enc h n0 s prev p =
+  match n0 with
+  | O -> []
+  | S n' ->
+    let c =
+      xor_pad (h (app s prev))
+        (firstn (S (S (S (S (S (S (S (S (S (S (S (S (S (S (S (S
+          O)))))))))))))))) p)
+    in
+    app c
+      (rfc_up_enc h n' s c
+        (skipn (S (S (S (S (S (S (S (S (S (S (S (S (S (S (S (S
+          O)))))))))))))))) p))
+
+(** val up_blocks : nat -> nat **)
+
+let up_blocks len =
+  Nat.max (S O)
+    (Nat.div
+      (add len (S (S (S (S (S (S (S (S (S (S (S (S (S (S (S O))))))))))))))))
+      (S (S (S (S (S (S (S (S (S (S (S (S (S (S (S (S O)))))))))))))))))
+
+(** val rfc_up_encrypt :
+    (bytes -> bytes) -> bytes -> bytes -> bytes -> bytes **)
+
+let rfc_up_encrypt h s rA p =
+  rfc_up_enc h (up_blocks (length p)) s rA p
+
+(** val rfc_up_dec :
+    (bytes -> bytes) -> nat -> bytes -> bytes -> bytes -> bytes **)
+
+let rec rfc_up_dec h n0 s prev c =
+  match n0 with
+  | O -> []
+  | S n' ->
+    app
+      (xor_pad (h (app s prev))
+        (firstn (S (S (S (S (S (S (S (S (S (S (S (S (S (S (S (S
+          O)))))))))))))))) c))
+      (rfc_up_dec h n' s
+        (firstn (S (S (S (S (S (S (S (S (S (S (S (S (S (S (S (S
+          O)))))))))))))))) c)
+        (skipn (S (S (S (S (S (S (S (S (S (S (S (S (S (S (S (S
+          O)))))))))))))))) c))
+
+(** val rfc_up_decrypt :
+    (bytes -> bytes) -> bytes -> bytes -> bytes -> bytes **)
+
+let rfc_up_decrypt h s rA c =
+  take_until_nul
+    (rfc_up_dec h
+      (Nat.div (length c) (S (S (S (S (S (S (S (S (S (S (S (S (S (S (S (S
+        O))))))))))))))))) s rA c)
+
+(** val spec_new_user_password :
+    (bytes -> bytes) -> bytes -> bytes -> bytes -> bytes res **)
+
+let spec_new_user_password h pt sec ra =
+  if (||)
+       ((||)
+         (Nat.ltb (S (S (S (S (S (S (S (S (S (S (S (S (S (S (S (S (S (S (S (S
+           (S (S (S (S (S (S (S (S (S (S (S (S (S (S (S (S (S (S (S (S (S (S
+           (S (S (S (S (S (S (S (S (S (S (S (S (S (S (S (S (S (S (S (S (S (S
+           (S (S (S (S (S (S (S (S (S (S (S (S (S (S (S (S (S (S (S (S (S (S
+           (S (S (S (S (S (S (S (S (S (S (S (S (S (S (S (S (S (S (S (S (S (S
+           (S (S (S (S (S (S (S (S (S (S (S (S (S (S (S (S (S (S (S (S
+           O))))))))))))))))))))))))))))))))))))))))))))))))))))))))))))))))))))))))))))))))))))))))))))))))))))))))))))))))))))))))))))))))
+           (length pt)) (Nat.eqb (length sec) O))
+       (negb
+         (Nat.eqb (length ra) (S (S (S (S (S (S (S (S (S (S (S (S (S (S (S (S
+           O))))))))))))))))))
+  then Err e_invalid
+  else Ok (rfc_up_encrypt h sec ra pt)
+
+(** val spec_user_password :
+    (bytes -> bytes) -> bytes -> bytes -> bytes -> bytes res **)
+
+let spec_user_password h a sec ra =
+  if (||)
+       ((||)
+         ((||)
+           ((||)
+             (Nat.ltb (length a) (S (S (S (S (S (S (S (S (S (S (S (S (S (S (S
+               (S O)))))))))))))))))
+             (Nat.ltb (S (S (S (S (S (S (S (S (S (S (S (S (S (S (S (S (S (S
+               (S (S (S (S (S (S (S (S (S (S (S (S (S (S (S (S (S (S (S (S (S
+               (S (S (S (S (S (S (S (S (S (S (S (S (S (S (S (S (S (S (S (S (S
+               (S (S (S (S (S (S (S (S (S (S (S (S (S (S (S (S (S (S (S (S (S
+               (S (S (S (S (S (S (S (S (S (S (S (S (S (S (S (S (S (S (S (S (S
+               (S (S (S (S (S (S (S (S (S (S (S (S (S (S (S (S (S (S (S (S (S
+               (S (S (S (S (S
+               O))))))))))))))))))))))))))))))))))))))))))))))))))))))))))))))))))))))))))))))))))))))))))))))))))))))))))))))))))))))))))))))))
+               (length a)))
+           (negb
+             (Nat.eqb
+               (Nat.modulo (length a) (S (S (S (S (S (S (S (S (S (S (S (S (S
+                 (S (S (S O))))))))))))))))) O))) (Nat.eqb (length sec) O))
+       (negb
+         (Nat.eqb (length ra) (S (S (S (S (S (S (S (S (S (S (S (S (S (S (S (S
+           O))))))))))))))))))
+  then Err e_invalid
+  else Ok (rfc_up_decrypt h sec ra a)
+
+(** val tp_blocks : nat -> nat **)
+
+let tp_blocks len =
+  Nat.div
+    (add len (S (S (S (S (S (S (S (S (S (S (S (S (S (S (S (S
+      O))))))))))))))))) (S (S (S (S (S (S (S (S (S (S (S (S (S (S (S (S
+    O))))))))))))))))
+
+(** val tp_plain : bytes -> bytes **)
+
+let tp_plain pw =
+  (N.of_nat (length pw)) :: pw
+
+(** val rfc_tp_encrypt :
+    (bytes -> bytes) -> bytes -> bytes -> bytes -> bytes -> bytes **)
+
+let rfc_tp_encrypt h s rA salt pw =
+  app salt
+    (rfc_up_enc h (tp_blocks (length pw)) s (app rA salt) (tp_plain pw))
+
+(** val salt_ok : bytes -> bool **)
+
+let salt_ok = function
+| [] -> false
+| s0 :: l ->
+  (match l with
+   | [] -> false
+   | _ :: l0 ->
+     (match l0 with
+      | [] ->
+        N.leb (Npos (XO (XO (XO (XO (XO (XO (XO XH))))))))
+          (N.modulo s0 (Npos (XO (XO (XO (XO (XO (XO (XO (XO XH))))))))))
+      | _ :: _ -> false))
+
+(** val tp_max_password : nat **)
+
+let tp_max_password =
+  S (S (S (S (S (S (S (S (S (S (S (S (S (S (S (S (S (S (S (S (S (S (S (S (S
+    (S (S (S (S (S (S (S (S (S (S (S (S (S (S (S (S (S (S (S (S (S (S (S (S
+    (S (S (S (S (S (S (S (S (S (S (S (S (S (S (S (S (S (S (S (S (S (S (S (S
+    (S (S (S (S (S (S (S (S (S (S (S (S (S (S (S (S (S (S (S (S (S (S (S (S
+    (S (S (S (S (S (S (S (S (S (S (S (S (S (S (S (S (S (S (S (S (S (S (S (S
+    (S (S (S (S (S (S (S (S (S (S (S (S (S (S (S (S (S (S (S (S (S (S (S (S
+    (S (S (S (S (S (S (S (S (S (S (S (S (S (S (S (S (S (S (S (S (S (S (S (S
+    (S (S (S (S (S (S (S (S (S (S (S (S (S (S (S (S (S (S (S (S (S (S (S (S
+    (S (S (S (S (S (S (S (S (S (S (S (S (S (S (S (S (S (S (S (S (S (S (S (S
+    (S (S (S (S (S (S (S (S (S (S (S (S (S (S (S (S (S (S (S (S (S (S
+    O))))))))))))))))))))))))))))))))))))))))))))))))))))))))))))))))))))))))))))))))))))))))))))))))))))))))))))))))))))))))))))))))))))))))))))))))))))))))))))))))))))))))))))))))))))))))))))))))))))))))))))))))))))))))))))))))))))))))))))))
+
+(** val spec_new_tunnel_password :
+    (bytes -> bytes) -> bytes -> bytes -> bytes -> bytes -> bytes res **)
+
+let spec_new_tunnel_password h pw salt sec ra =
+  if (||)
+       ((||)
+         ((||) (Nat.ltb tp_max_password (length pw)) (negb (salt_ok salt)))
+         (Nat.eqb (length sec) O))
+       (negb
+         (Nat.eqb (length ra) (S (S (S (S (S (S (S (S (S (S (S (S (S (S (S (S
+           O))))))))))))))))))
+  then Err e_invalid
+  else Ok (rfc_tp_encrypt h sec ra salt pw)
+
+(** val spec_tunnel_password :
+    (bytes -> bytes) -> bytes -> bytes -> bytes -> (bytes * bytes) res **)
+
+let spec_tunnel_password h a sec ra =
+  if (||)
+       ((||)
+         ((||)
+           ((||)
+             ((||)
+               (Nat.ltb (S (S (S (S (S (S (S (S (S (S (S (S (S (S (S (S (S (S
+                 (S (S (S (S (S (S (S (S (S (S (S (S (S (S (S (S (S (S (S (S
+                 (S (S (S (S (S (S (S (S (S (S (S (S (S (S (S (S (S (S (S (S
+                 (S (S (S (S (S (S (S (S (S (S (S (S (S (S (S (S (S (S (S (S
+                 (S (S (S (S (S (S (S (S (S (S (S (S (S (S (S (S (S (S (S (S
+                 (S (S (S (S (S (S (S (S (S (S (S (S (S (S (S (S (S (S (S (S
+                 (S (S (S (S (S (S (S (S (S (S (S (S (S (S (S (S (S (S (S (S
+                 (S (S (S (S (S (S (S (S (S (S (S (S (S (S (S (S (S (S (S (S
+                 (S (S (S (S (S (S (S (S (S (S (S (S (S (S (S (S (S (S (S (S
+                 (S (S (S (S (S (S (S (S (S (S (S (S (S (S (S (S (S (S (S (S
+                 (S (S (S (S (S (S (S (S (S (S (S (S (S (S (S (S (S (S (S (S
+                 (S (S (S (S (S (S (S (S (S (S (S (S (S (S (S (S (S (S (S (S
+                 (S (S (S (S (S (S (S (S (S (S (S (S (S (S
+                 O))))))))))))))))))))))))))))))))))))))))))))))))))))))))))))))))))))))))))))))))))))))))))))))))))))))))))))))))))))))))))))))))))))))))))))))))))))))))))))))))))))))))))))))))))))))))))))))))))))))))))))))))))))))))))))))))))))))))))))))))))))))))))))
+                 (length a))
+               (Nat.ltb (length a) (S (S (S (S (S (S (S (S (S (S (S (S (S (S
+                 (S (S (S (S O))))))))))))))))))))
+             (negb
+               (Nat.eqb
+                 (Nat.modulo (sub (length a) (S (S O))) (S (S (S (S (S (S (S
+                   (S (S (S (S (S (S (S (S (S O))))))))))))))))) O)))
+           (Nat.eqb (length sec) O))
+         (negb
+           (Nat.eqb (length ra) (S (S (S (S (S (S (S (S (S (S (S (S (S (S (S
+             (S O))))))))))))))))))) (negb (salt_ok (firstn (S (S O)) a)))
+  then Err e_invalid
+  else let salt = firstn (S (S O)) a in
+       let plain =
+         rfc_up_dec h
+           (Nat.div (sub (length a) (S (S O))) (S (S (S (S (S (S (S (S (S (S
+             (S (S (S (S (S (S O))))))))))))))))) sec (app ra salt)
+           (skipn (S (S O)) a)
+       in
+       (match plain with
+        | [] -> Err e_invalid
+        | pl :: rest ->
+          if Nat.ltb (length rest) (N.to_nat pl)
+          then Err e_invalid
+          else Ok ((firstn (N.to_nat pl) rest), salt))
 
 (** val md5_mask32 : n **)
 
@@ -3617,6 +4530,114 @@ let dispatch_c01 name bs zs =
                                                                     (z1 zs)))
                                                                    else None
 
+(** val b4 : bytes list -> bytes **)
+
+let b4 bs =
+  nth (S (S (S O))) bs []
+
+(** val t_bytes : bytes -> tok list **)
+
+let t_bytes b =
+  (TB b) :: []
+
+(** val t_pair : (bytes * bytes) -> tok list **)
+
+let t_pair p =
+  (TB (fst p)) :: ((TB (snd p)) :: [])
+
+(** val dispatch_pw : bytes -> bytes list -> z list -> tok list option **)
+
+let dispatch_pw name bs _ =
+  if name_is name (String ((Ascii (true, false, true, true, false, true,
+       true, false)), (String ((Ascii (false, true, true, true, false, true,
+       false, false)), (String ((Ascii (false, true, true, true, false, true,
+       true, false)), (String ((Ascii (true, false, true, false, true, true,
+       true, false)), (String ((Ascii (false, false, false, false, true,
+       true, true, false)), EmptyString))))))))))
+  then Some (t_res (new_user_password md5 (b1 bs) (b2 bs) (b3 bs)) t_bytes)
+  else if name_is name (String ((Ascii (true, true, false, false, true, true,
+            true, false)), (String ((Ascii (false, true, true, true, false,
+            true, false, false)), (String ((Ascii (false, true, true, true,
+            false, true, true, false)), (String ((Ascii (true, false, true,
+            false, true, true, true, false)), (String ((Ascii (false, false,
+            false, false, true, true, true, false)), EmptyString))))))))))
+       then Some
+              (t_res_s (spec_new_user_password md5 (b1 bs) (b2 bs) (b3 bs))
+                t_bytes)
+       else if name_is name (String ((Ascii (true, false, true, true, false,
+                 true, true, false)), (String ((Ascii (false, true, true,
+                 true, false, true, false, false)), (String ((Ascii (true,
+                 false, true, false, true, true, true, false)), (String
+                 ((Ascii (false, false, false, false, true, true, true,
+                 false)), EmptyString))))))))
+            then Some
+                   (t_res (user_password md5 (b1 bs) (b2 bs) (b3 bs)) t_bytes)
+            else if name_is name (String ((Ascii (true, true, false, false,
+                      true, true, true, false)), (String ((Ascii (false,
+                      true, true, true, false, true, false, false)), (String
+                      ((Ascii (true, false, true, false, true, true, true,
+                      false)), (String ((Ascii (false, false, false, false,
+                      true, true, true, false)), EmptyString))))))))
+                 then Some
+                        (t_res_s
+                          (spec_user_password md5 (b1 bs) (b2 bs) (b3 bs))
+                          t_bytes)
+                 else if name_is name (String ((Ascii (true, false, true,
+                           true, false, true, true, false)), (String ((Ascii
+                           (false, true, true, true, false, true, false,
+                           false)), (String ((Ascii (false, true, true, true,
+                           false, true, true, false)), (String ((Ascii
+                           (false, false, true, false, true, true, true,
+                           false)), (String ((Ascii (false, false, false,
+                           false, true, true, true, false)),
+                           EmptyString))))))))))
+                      then Some
+                             (t_res
+                               (new_tunnel_password md5 (b1 bs) (b2 bs)
+                                 (b3 bs) (b4 bs)) t_bytes)
+                      else if name_is name (String ((Ascii (true, true,
+                                false, false, true, true, true, false)),
+                                (String ((Ascii (false, true, true, true,
+                                false, true, false, false)), (String ((Ascii
+                                (false, true, true, true, false, true, true,
+                                false)), (String ((Ascii (false, false, true,
+                                false, true, true, true, false)), (String
+                                ((Ascii (false, false, false, false, true,
+                                true, true, false)), EmptyString))))))))))
+                           then Some
+                                  (t_res_s
+                                    (spec_new_tunnel_password md5 (b1 bs)
+                                      (b2 bs) (b3 bs) (b4 bs)) t_bytes)
+                           else if name_is name (String ((Ascii (true, false,
+                                     true, true, false, true, true, false)),
+                                     (String ((Ascii (false, true, true,
+                                     true, false, true, false, false)),
+                                     (String ((Ascii (false, false, true,
+                                     false, true, true, true, false)),
+                                     (String ((Ascii (false, false, false,
+                                     false, true, true, true, false)),
+                                     EmptyString))))))))
+                                then Some
+                                       (t_res
+                                         (tunnel_password md5 (b1 bs) 
+                                           (b2 bs) (b3 bs)) t_pair)
+                                else if name_is name (String ((Ascii (true,
+                                          true, false, false, true, true,
+                                          true, false)), (String ((Ascii
+                                          (false, true, true, true, false,
+                                          true, false, false)), (String
+                                          ((Ascii (false, false, true, false,
+                                          true, true, true, false)), (String
+                                          ((Ascii (false, false, false,
+                                          false, true, true, true, false)),
+                                          EmptyString))))))))
+                                     then Some
+                                            (t_res_s
+                                              (spec_tunnel_password md5
+                                                (b1 bs) (b2 bs) (b3 bs))
+                                              t_pair)
+                                     else None
+
 (** val dispatch : bytes -> bytes list -> z list -> tok list **)
 
 let dispatch name bs zs =
@@ -3657,4 +4678,8 @@ let dispatch name bs zs =
                   | b :: _ -> (TB (md5 b)) :: [])
             else (match dispatch_c01 name bs zs with
                   | Some t -> t
-                  | None -> (TI (Zneg (XI (XO (XO (XO (XO (XI XH)))))))) :: [])
+                  | None ->
+                    (match dispatch_pw name bs zs with
+                     | Some t -> t
+                     | None ->
+                       (TI (Zneg (XI (XO (XO (XO (XO (XI XH)))))))) :: []))
